@@ -965,45 +965,70 @@ impl InferContext {
         // Store type aliases for resolution during unification
         for (alias_name, target_type) in type_aliases {
             self.type_aliases.insert(*alias_name, *target_type);
+        }
+
+        // Check for circular type aliases (name resolution needs the complete table)
+        let cyclic = self.check_type_alias_cycles(type_aliases);
+
+        for (alias_name, target_type) in type_aliases {
+            // An alias on a cycle has been reported and is left unregistered: expanding
+            // it would never terminate.
+            if cyclic.contains(alias_name) {
+                self.type_aliases.remove(alias_name);
+                continue;
+            }
             // Also add to environment for name resolution
             self.env
                 .add_bind(&[(*alias_name, (*target_type, EvalStage::Persistent))]);
         }
-
-        // Check for circular type aliases
-        self.check_type_alias_cycles(type_aliases);
     }
 
     /// Check for circular references in type aliases
-    fn check_type_alias_cycles(&mut self, type_aliases: &TypeAliasMap) {
+    /// Returns the names of the aliases that lie on a cycle.
+    fn check_type_alias_cycles(&mut self, type_aliases: &TypeAliasMap) -> Vec<Symbol> {
         let errors: Vec<_> = type_aliases
             .iter()
             .filter_map(|(alias_name, target_type)| {
-                Self::detect_type_alias_cycle(*alias_name, type_aliases).map(|cycle| {
-                    Error::RecursiveTypeAlias {
+                self.detect_type_alias_cycle(*alias_name, type_aliases)
+                    .map(|cycle| Error::RecursiveTypeAlias {
                         type_name: *alias_name,
                         cycle,
                         location: target_type.to_loc(),
-                    }
-                })
+                    })
+            })
+            .collect();
+        let cyclic = errors
+            .iter()
+            .filter_map(|e| match e {
+                Error::RecursiveTypeAlias { type_name, .. } => Some(*type_name),
+                _ => None,
             })
             .collect();
 
         self.errors.extend(errors);
+        cyclic
     }
 
     /// Detect a cycle starting from a given type alias name
     /// Returns Some(cycle) if a cycle is found, None otherwise
-    fn detect_type_alias_cycle(start: Symbol, type_aliases: &TypeAliasMap) -> Option<Vec<Symbol>> {
-        Self::detect_cycle_helper(start, vec![], type_aliases).map(|t| t.0)
+    fn detect_type_alias_cycle(
+        &self,
+        start: Symbol,
+        type_aliases: &TypeAliasMap,
+    ) -> Option<Vec<Symbol>> {
+        self.detect_cycle_helper(start, vec![], type_aliases)
+            .map(|t| t.0)
     }
 
     /// Helper function for cycle detection
     fn detect_cycle_helper(
+        &self,
         current: Symbol,
         path: Vec<Symbol>,
         type_aliases: &TypeAliasMap,
     ) -> Option<TypeCycle> {
+        // Follow the same name resolution as `resolve_type_alias` (module-qualified names)
+        let current = self.resolve_type_alias_symbol_fallback(current);
         // If we've seen this type before in the current path, we have a cycle
         if let Some(cycle_start) = path.iter().position(|&s| s == current) {
             return Some(TypeCycle(path[cycle_start..].to_vec()));
@@ -1015,7 +1040,7 @@ impl InferContext {
             Self::find_type_aliases_in_type(*target_type)
                 .into_iter()
                 .find_map(|ref_alias| {
-                    Self::detect_cycle_helper(ref_alias, new_path.clone(), type_aliases)
+                    self.detect_cycle_helper(ref_alias, new_path.clone(), type_aliases)
                 })
         })
     }
